@@ -36,6 +36,7 @@ ASSUMPTIONS = ['positions given to or/and_move_to_front are sorted and unique (d
                'a refusal whose message mentions capture is not judged']
 
 K_QUICK, K_THOROUGH = 80, 1200
+O2_SHARE = {True: 0.2, False: 0.1}
 PROFILES = ('metavar', 'phi_permuted', 'concrete', 'binder', 'constrained_mv', 'pending_subst', 'notation', 'mixed')
 FLOORS = {'quick': {}, 'thorough': {}}
 for _e in S.ENTRIES:
@@ -264,6 +265,7 @@ class State:
         self.thunk_checked = 0
         self.thunk_seen = 0
         self.thunk_mismatch = None
+        self.fail_by = None        # lemma that built the innermost thunk in which a run-time exception surfaced
 
 
 class Real:
@@ -305,6 +307,10 @@ class Real:
                         out = orig(self_, *a, **k)
                     finally:
                         st.depth -= 1
+                    th_ = out[e.ret] if e.ret is not None and isinstance(out, tuple) else out
+                    d_ = getattr(th_, '__dict__', None)
+                    if d_ is not None and '_pi2v_by' not in d_:
+                        d_['_pi2v_by'] = e.name
                     if st.inner_checked < st.inner_budget:
                         if k:
                             try:
@@ -353,7 +359,12 @@ class Real:
         orig = PT.__call__
 
         def call(self_, interpreter):
-            proved = orig(self_, interpreter)
+            try:
+                proved = orig(self_, interpreter)
+            except Exception:
+                if st.active and st.fail_by is None:
+                    st.fail_by = self_.__dict__.get('_pi2v_by')
+                raise
             st.thunk_seen += 1
             if st.active and st.thunk_checked < st.thunk_budget and (st.thunk_seen <= 64 or st.thunk_seen % 16 == 0):
                 st.thunk_checked += 1
@@ -494,9 +505,15 @@ class Case:
             ctx.note('o2_serialisation_failed_example', dict(witness, error=repr(ex)[:200]))
             return
         r = rm.run_triple(g.data, c.data, p.data)
-        w = dict(witness, gamma=g.data.hex()[:2000], claim=c.data.hex()[:2000], proof=p.data.hex()[:6000])
+        w = dict({k: v for k, v in witness.items() if not k.startswith('_')}, gamma=g.data.hex()[:2000], claim=c.data.hex()[:2000], proof=p.data.hex()[:6000])
         if r[0] == 'REJECT':
             cls = r[1]
+            if cls == 'rule' and e.draw is not None and witness.get('_has_pending_subst'):
+                # Instantiating phi[psi/x] with a metavariable that declares x fresh: the toolkit drops the substitution, the documented
+                # machine keeps it deferred (ambiguity A10) - a divergence of the instantiation primitive, not of the lemma.
+                ctx.count('o2_not_judged:a10_pending_substitution_instantiated')
+                ctx.note('a10_divergence_example', {k: v for k, v in witness.items() if not k.startswith('_')})
+                return
             if cls in ('rule', 'underflow', 'type_confusion', 'bad_index', 'claim_mismatch', 'unproved_claims', 'unknown_opcode', 'truncated', 'unsupported'):
                 ctx.violation(f'serialised_lemma_rejected_by_reference_machine:{e.name}:{cls}', f'the serialised proof returned by {e.name} is rejected by the documented machine ({cls}: {r[2]})', w)
             else:
@@ -585,6 +602,12 @@ class Case:
                 ctx.count('refused_capture')
                 ctx.count('refused_capture:' + e.name)
                 return
+            if st.culprits:
+                name, w_, g_, a_, depth = st.culprits[0]
+                ctx.violation(f'lemma_conclusion_differs_from_schema:{name}', f'{name} returned a proof whose static conclusion is not its advertised schema at the arguments'
+                              f' (observed as an internal call while building {e.name}, which then raised {type(ex).__name__})',
+                              dict(witness, failing_call=name, failing_call_arguments=a_, failing_call_advertised=w_, failing_call_got=g_, error=repr(ex)[:200]))
+                return
             who = culprit_of(ex, e.name, real.codes)
             ctx.violation(f'lemma_raises:{who}:{type(ex).__name__}', f'{e.cls}.{e.name} raised {type(ex).__name__} on arguments of the advertised shape (raised inside {who})',
                           dict(witness, error=repr(ex)[:300], expected_conclusion=tb.pretty(want)))
@@ -654,8 +677,9 @@ class Case:
                 ctx.count('refused_capture')
                 ctx.count('refused_capture:' + e.name)
                 return
-            ctx.violation(f'lemma_replay_fails:{e.name}:{type(ex).__name__}', f'the proof returned by {e.name} raised {type(ex).__name__} when run on a StatefulInterpreter after the gamma phase',
-                          dict(witness, error=repr(ex)[:300], conclusion=tb.pretty(want)))
+            who = st.fail_by or e.name
+            ctx.violation(f'lemma_replay_fails:{who}:{type(ex).__name__}', f'the proof returned by {e.name} raised {type(ex).__name__} when run on a StatefulInterpreter after the gamma phase'
+                          f' (inside the part of the proof built by {who})', dict(witness, error=repr(ex)[:300], conclusion=tb.pretty(want), failing_part_built_by=who))
             return
         st.active = False
         ctx.count('thunk_runs_checked', st.thunk_checked)
@@ -694,8 +718,9 @@ class Case:
         ctx.count('profile:' + profile)
         if donor:
             ctx.count('nested_compositions')
-        if e.name not in HEAVY and rng.random() < (0.2 if self.quick else 0.1):
-            self.o2_check(e, mod, th, want, witness, ctx)
+        if e.name not in HEAVY and rng.random() < O2_SHARE[self.quick]:
+            pend = any('(es ' in tb.show(f(v)) or '(ss ' in tb.show(f(v)) for k_, f in e.args if k_ in ('pat', 'prem'))
+            self.o2_check(e, mod, th, want, dict(witness, _has_pending_subst=pend), ctx)
         if rng.random() < 0.002:
             ctx.sample({'entry': e.name, 'arguments': [str(d)[:120] for d in desc], 'conclusion': tb.pretty(want)[:300], 'primitives': len(it.journal)})
 
